@@ -339,14 +339,14 @@ def run(tier):
     tlc.require_ok(pres, "PoolConc")
     tlc.require_coverage(pres, ["Acquire", "Use", "Release"], "PoolConc")
     chk.add_tlc(pres, "PoolConc (3 threads x 3 operations)")
-    for r_ in range(4 if not thorough else 40):
-        a, b = concurrent_sessions(rec, 20 if not thorough else 60)
+    for r_ in range(4 if not thorough else 16):            # (validation of these four-session traces is the slowest part: ~8 events/s)
+        a, b = concurrent_sessions(rec, 20 if not thorough else 40)
         runs.append((a, b, dict(kind="concurrent", round=r_)))
         chk.case(("concurrent", r_), n=100)
     rec.close()
     nd = sum(1 for e in rec.events if e["ev"] == "Send" and e.get("wire"))
     print("  %d runs, %d datagrams judged, %d events" % (len(runs), nd, rec.n), flush=True)
-    v = trace.validate_parallel("TraceSession.tla", "TraceSession.cfg", rec.events, [(a, b) for a, b, _ in runs], k=14, name="c03")
+    v = trace.validate_parallel("TraceSession.tla", "TraceSession.cfg", rec.events, [(a, b) for a, b, _ in runs], k=14, name="c03", timeout=3000 if not thorough else 9000)
     for i, r in enumerate(v["results"]):
         chk.add_tlc(r, "TraceSession(c03)#%d" % i)
     chk.traces += len(runs)
